@@ -157,6 +157,9 @@ def compile_col_expr(
 
         arrange = expr.context_kwargs.get("arrange")
         if arrange:
+            # constant sort keys do not order anything (and polars cannot sort by a scalar)
+            arrange = [order for order in arrange if not types.is_const(order.order_by.dtype())]
+        if arrange:
             order_by, descending, nulls_last = zip(
                 *[compile_order(order, name_in_df) for order in arrange], strict=True
             )
@@ -350,15 +353,16 @@ def compile_ast(
             df = df.filter(compile_col_expr(fil, name_in_df) for fil in nd.predicates)
 
     elif isinstance(nd, verbs.Arrange):
-        order_by, descending, nulls_last = zip(
-            *[compile_order(order, name_in_df) for order in nd.order_by], strict=True
-        )
-        df = df.sort(
-            order_by,
-            descending=descending,
-            nulls_last=[False if nl is None else nl for nl in nulls_last],
-            maintain_order=True,
-        )
+        # constant sort keys do not order anything (and polars cannot sort by a scalar)
+        keys = [order for order in nd.order_by if not types.is_const(order.order_by.dtype())]
+        if keys:
+            order_by, descending, nulls_last = zip(*[compile_order(order, name_in_df) for order in keys], strict=True)
+            df = df.sort(
+                order_by,
+                descending=descending,
+                nulls_last=[False if nl is None else nl for nl in nulls_last],
+                maintain_order=True,
+            )
 
     elif isinstance(nd, verbs.Summarize):
         # We support usage of aggregated columns in expressions in summarize, but polars
